@@ -104,17 +104,22 @@ Proof.
 Qed.
 
 Theorem C17_exit_statuses :
-  Gen.Cli.cli_exit_consts = [("ExitSuccess", 0%N); ("ExitCatchall", 1%N); ("ExitUsage", 2%N)] /\
-  Permutation (map (fun s => (fst (fst (fst s)), snd (fst s), snd s)) Gen.Cli.cli_exit_sites)
-    [("main", "os.Exit", "const:2"); ("main", "os.Exit", "const:2"); ("main", "os.Exit", "const:2"); ("main", "os.Exit", "const:2");
-     ("main", "log.Fatalln", ""); ("parseRecipe", "os.Exit", "const:2"); ("parseWordList", "os.Exit", "const:2");
-     ("parseWordList", "os.Exit", "const:1"); ("loadWordListFile", "log.Fatalln", ""); ("loadWordListFile", "log.Fatalln", "")] /\
-  (* what opgen itself writes to standard output: the entropy, the password, the usage text *)
-  Permutation (map (fun s => (fst (fst (fst s)), snd (fst s))) Gen.Cli.cli_stdout_sites)
-    [("main", "fmt.Printf"); ("main", "fmt.Println"); ("printUsage", "fmt.Println")].
+  Permutation Gen.Cli.cli_exit_consts [("ExitSuccess", 0%N); ("ExitCatchall", 1%N); ("ExitUsage", 2%N)] /\
+  (* every statement that ends the process does so through os.Exit with the usage status 2 or the catch-all status 1, or through
+     log.Fatalln (status 1); both statuses occur; which function the statement sits in, and how often it is written out, is not
+     part of the claim *)
+  forallb (fun s => let callee := snd (fst s) in let arg := snd s in
+                    (String.eqb callee "os.Exit" && (String.eqb arg "const:2" || String.eqb arg "const:1")) ||
+                    (String.eqb callee "log.Fatalln" && String.eqb arg "")) Gen.Cli.cli_exit_sites = true /\
+  existsb (fun s => String.eqb (snd s) "const:2") Gen.Cli.cli_exit_sites = true /\
+  existsb (fun s => String.eqb (snd s) "const:1") Gen.Cli.cli_exit_sites = true /\
+  (* what opgen itself writes to standard output: the entropy, the password, the usage text — through fmt.Printf / fmt.Println,
+     and the one formatted statement prints the entropy with two decimals *)
+  forallb (fun s => String.eqb (snd (fst s)) "fmt.Printf" || String.eqb (snd (fst s)) "fmt.Println") Gen.Cli.cli_stdout_sites = true /\
+  map snd (filter (fun s => String.eqb (snd (fst s)) "fmt.Printf") Gen.Cli.cli_stdout_sites) = ["%.2f" ++ String (Ascii.ascii_of_nat 10) ""].
 Proof.
-  split; [vm_compute; reflexivity|].
-  split; [apply (same_multiset_perm s3_eqb s3_eqb_eq); vm_compute; reflexivity|apply (same_multiset_perm s2_eqb s2_eqb_eq); vm_compute; reflexivity].
+  split; [apply (same_multiset_perm _ (pair_eqb_eq String.eqb N.eqb (fun x y E => proj1 (String.eqb_eq x y) E) (fun x y E => proj1 (N.eqb_eq x y) E))); vm_compute; reflexivity|].
+  vm_compute. repeat split; reflexivity.
 Qed.
 
 (** how the recipe is put together from the flags (source text of the two constructors and of the class-list parser) *)
